@@ -294,7 +294,10 @@ class Polynomial:
                 self.coefficients = np.sum(
                     tnMatrix * np.expand_dims(self.coefficients, i), axis=i + 1
                 )
-        self.basis = newBasis
+        # an 'Array' axis is never transformed, so it keeps its label
+        self.basis = tuple(
+            "Array" if old == "Array" else new for old, new in zip(self.basis, newBasis)
+        )
 
     def evaluate(
             self,
